@@ -1618,6 +1618,12 @@ func (r *Raft) appendEntries(rpc RPC, a *AppendEntriesRequest) {
 	if a.LeaderCommitIndex > 0 && a.LeaderCommitIndex > r.getCommitIndex() {
 		start := time.Now()
 		idx := min(a.LeaderCommitIndex, r.getLastIndex())
+		// Only the entries this request covers were compared with the
+		// leader's log: whatever we hold beyond its last entry is not known
+		// to match and must not be committed on its account.
+		if vouched := a.PrevLogEntry + uint64(len(a.Entries)); vouched < idx {
+			idx = max(vouched, r.getCommitIndex())
+		}
 		r.setCommitIndex(idx)
 		if r.configurations.latestIndex <= idx {
 			r.setCommittedConfiguration(r.configurations.latest, r.configurations.latestIndex)
